@@ -45,6 +45,11 @@ THEOREMS = [
     "SqlglotModel.Properties.C12.copy_shares_no_node",
     "SqlglotModel.Properties.C12.copy_hashes_from_source",
     "SqlglotModel.Properties.C12.load_accepts",
+    "SqlglotModel.Properties.C12.load_shares_nothing_with_payload",
+    "SqlglotModel.Properties.C12.source_builds_meta_dict",
+    "SqlglotModel.Properties.C12.load_aliases_comments_witness",
+    "SqlglotModel.Properties.C12.load_aliases_meta_witness",
+    "SqlglotModel.Properties.C12.raw_list_value_shared_witness",
     "SqlglotModel.Properties.C12.generated_ok",
     "SqlglotModel.Properties.C12.duplicate_keys_witness",
 ]
@@ -74,9 +79,15 @@ EXPECTED_ASSIGN = {
                         "{k: load(v[META_EXPR]) if isinstance(v, dict) and META_EXPR in v else v for k, v in meta.items()}"],
     ("_load", "expression._meta"): "meta",
     ("_load", "expression._type"): "load(payload.get(TYPE))",
-    ("_load", "expression.comments"): "payload.get(COMMENTS)",
+}
+# how comments travel (decides SharePolicy): value expression -> does it copy the list?
+COMMENTS_FORMS = {
+    ("_load", "expression.comments"): {"payload.get(COMMENTS)": False,
+                                       "list(payload[COMMENTS]) if COMMENTS in payload else None": True},
+    ("dump", "payload[COMMENTS]"): {"node.comments": False, "list(node.comments)": True},
 }
 EXPECTED_REDUCE = "(load, (dump(self),))"
+CORE_SKIP_THEN = {"set": ("index is not None",)}
 # Expression methods of sqlglot/expressions/core.py the model mirrors (`attach`, `clearUp`, `copyLoopWith`): guards in
 # source order, and the ordered (target, value) list of their simple assignments
 EXPECTED_CORE = {
@@ -91,12 +102,12 @@ EXPECTED_CORE = {
         ["while node and node._hash is not None", "if type(self.args.get(arg_key)) is not list", "if isinstance(value, Expr)"],
         [("values", "self.args[arg_key]"), ("node._hash", "None"), ("node", "node.parent"), ("self.args[arg_key]", "[]"),
          ("value.index", "len(values)")]),
+    # `load` and `__deepcopy__` only ever call `set(arg_key, value)` (index=None): the positional-edit branch
+    # `if index is not None:` (list surgery, negative-index normalisation, sibling renumbering: C08's territory) is not
+    # mirrored by `attach` and therefore not pinned; its `elif value is None` / fall-through continuation is.
     "set": (
-        ["while node and node._hash is not None", "if index is not None", "if seq_get(expressions, index) is None",
-         "if value is None", "for expressions[index:]", "if isinstance(value, list)", "if overwrite", "if value is None"],
-        [("self.args[arg_key]", "value"), ("node._hash", "None"), ("node", "node.parent"),
-         ("expressions", "self.args.get(arg_key) or []"), ("value", "expressions"), ("expressions[index:index]", "value"),
-         ("v.index", "v.index - 1"), ("expressions[index]", "value")]),
+        ["while node and node._hash is not None", "if index is not None", "if value is None"],
+        [("self.args[arg_key]", "value"), ("node._hash", "None"), ("node", "node.parent")]),
     "_set_parent": (
         ["if isinstance(value, Expr)", "if isinstance(value, list)", "for enumerate(value)", "if isinstance(v, Expr)"],
         [("value.parent", "self"), ("value.arg_key", "arg_key"), ("value.index", "index"), ("v.parent", "self"),
@@ -105,7 +116,19 @@ EXPECTED_CORE = {
 
 
 # ------------------------------------------------------------------------------------------ translate
-def _shape(fn: ast.FunctionDef) -> list:
+def _pruned(fn: ast.FunctionDef, skip_then_of: tuple = ()):
+    """a copy of the function in which the THEN-branch of every `if <test>` with test in skip_then_of is emptied
+    (the else branch is kept): code paths the model does not mirror are not pinned"""
+    if not skip_then_of:
+        return fn
+    fn = _copy.deepcopy(fn)
+    for n in ast.walk(fn):
+        if isinstance(n, ast.If) and ast.unparse(n.test) in skip_then_of:
+            n.body = [ast.Pass()]
+    return fn
+
+
+def _shape(fn: ast.FunctionDef, skip_then_of: tuple = ()) -> list:
     out = []
 
     def visit(n):
@@ -118,7 +141,7 @@ def _shape(fn: ast.FunctionDef) -> list:
                 out.append("for " + ast.unparse(ch.iter))
             visit(ch)
 
-    visit(fn)
+    visit(_pruned(fn, skip_then_of))
     return out
 
 
@@ -154,6 +177,29 @@ def translate(chk: Check) -> str:
         if got != wants:
             shape_ok = False
             problems.append(f"serde.{fname}: assignment(s) to {target} differ from the modelled ones: {got}")
+    copies = {}
+    for (fname, target), forms in COMMENTS_FORMS.items():
+        got = []
+        if fname in fns:
+            for n in ast.walk(fns[fname]):
+                if isinstance(n, ast.Assign) and len(n.targets) == 1 and ast.unparse(n.targets[0]) == target:
+                    got.append(ast.unparse(n.value))
+        if len(got) == 1 and got[0] in forms:
+            copies[fname] = forms[got[0]]
+        else:
+            copies[fname] = False
+            shape_ok = False
+            problems.append(f"serde.{fname}: assignment(s) to {target} not recognised: {got}")
+    # the node's _meta dict is built by the comprehension directly under `if meta is not None:` (never the payload's own)
+    builds_meta = False
+    if "_load" in fns:
+        for n in ast.walk(fns["_load"]):
+            if isinstance(n, ast.If) and ast.unparse(n.test) == "meta is not None" and not n.orelse and len(n.body) == 1:
+                b = n.body[0]
+                builds_meta = (isinstance(b, ast.Assign) and ast.unparse(b.targets[0]) == "meta"
+                               and isinstance(b.value, ast.DictComp))
+    chk.cov["share_policy"] = {"loadCopiesComments": copies.get("_load"), "loadBuildsMetaDict": builds_meta,
+                               "dumpCopiesComments": copies.get("dump")}
     # Expression.__reduce__ must delegate to serde (pickle = load . dump)
     core = ast.parse(open(os.path.join(REPO, "sqlglot", "expressions", "core.py"), encoding="utf-8").read())
     reduce_ok = False
@@ -167,8 +213,9 @@ def translate(chk: Check) -> str:
         found = {fn.name: fn for fn in cls.body if isinstance(fn, ast.FunctionDef)}
         for name, (want_shape, want_assign) in EXPECTED_CORE.items():
             fn = found.get(name)
-            got_shape = _shape(fn) if fn else None
-            got_assign = [(ast.unparse(n.targets[0]), ast.unparse(n.value)) for n in ast.walk(fn)
+            skip = CORE_SKIP_THEN.get(name, ())
+            got_shape = _shape(fn, skip) if fn else None
+            got_assign = [(ast.unparse(n.targets[0]), ast.unparse(n.value)) for n in ast.walk(_pruned(fn, skip))
                           if isinstance(n, ast.Assign) and len(n.targets) == 1] if fn else None
             if got_shape != want_shape or got_assign != want_assign:
                 shape_ok = False
@@ -187,6 +234,10 @@ def translate(chk: Check) -> str:
     lines.append(f"def shapeAsModelled : Bool := {'true' if shape_ok else 'false'}")
     lines.append("-- Expression.__reduce__ returns (load, (dump(self),)): pickling is load . dump")
     lines.append(f"def reduceViaSerde : Bool := {'true' if reduce_ok else 'false'}")
+    lines.append("-- how _load / dump pass mutable containers on (SharePolicy of Model/Serde.lean)")
+    lines.append(f"def loadCopiesComments : Bool := {'true' if copies.get('_load') else 'false'}")
+    lines.append(f"def loadBuildsMetaDict : Bool := {'true' if builds_meta else 'false'}")
+    lines.append(f"def dumpCopiesComments : Bool := {'true' if copies.get('dump') else 'false'}")
     lines.append("end SqlglotModel.Generated.C12")
     return "\n".join(lines) + "\n"
 
@@ -422,9 +473,13 @@ SCHEMA = {"t": {"a": "int", "b": "text", "c": "double", "d": "date", "s": "text"
 
 
 def all_dialects():
+    """the `Dialects` enum has no singlestore entry: enum ∪ sqlglot.dialects.DIALECT_MODULE_NAMES (34 + base)"""
+    import sqlglot.dialects as dialects_pkg
     from sqlglot.dialects.dialect import Dialects
 
-    return [d.value or None for d in Dialects]
+    names = {d.value for d in Dialects if d.value} | set(getattr(dialects_pkg, "DIALECT_MODULE_NAMES", ()))
+    names.discard("dialect")
+    return [None] + sorted(names)
 
 
 def fixture_sqls(chk: Check) -> list:
@@ -804,6 +859,46 @@ def arena_view(root):
     return out
 
 
+def graph_cells(root):
+    """the objects of a tree in `nodes` order (= payload order of its dump): Expressions and scalars"""
+    _, exp, _ = sg()
+    cells = []
+    stack = [root]
+    while stack:
+        x = stack.pop()
+        cells.append(x)
+        if isinstance(x, exp.Expr):
+            kids = []
+            for v in x.args.values():
+                kids.extend(v if type(v) is list else [v])
+            stack.extend(reversed(kids))
+    return cells
+
+
+def sharing_observed(serde, t) -> set:
+    """which containers of a kept dump the loaded nodes point at (object identity): compared with the SharePolicy the
+    translator read off the source"""
+    _, exp, _ = sg()
+    d = serde.dump(t)
+    l = serde.load(d)
+    obs = set()
+    cells = graph_cells(l)
+    if len(cells) != len(d):
+        return obs
+    for x, p in zip(cells, d):
+        if isinstance(x, exp.Expr):
+            if "o" in p and x.comments is not None:
+                obs.add(("loadCopiesComments", x.comments is not p["o"]))
+            if "m" in p and x._meta is not None:
+                obs.add(("loadBuildsMetaDict", x._meta is not p["m"]))
+    src = graph_cells(t)
+    if len(src) == len(d):
+        for x, p in zip(src, d):
+            if isinstance(x, exp.Expr) and "o" in p:
+                obs.add(("dumpCopiesComments", p["o"] is not x.comments))
+    return obs
+
+
 def correspond(chk: Check, trees: list) -> list:
     """trees: list of (origin, tree). Returns the origins/trees on which model and code differ."""
     _, exp, serde = sg()
@@ -872,6 +967,22 @@ def correspond(chk: Check, trees: list) -> list:
                 meta.append((idx, "load-mutated", m))
                 chk.count("mutated-load:" + (out if isinstance(out, str) else "tree"))
                 chk.corr_cases += 1
+    # SharePolicy (extracted from the source text) vs what the running code does (object identity)
+    pol = chk.cov.get("share_policy", {})
+    seen_obs: dict = {}
+    for idx, (origin, t) in enumerate(trees):
+        if idx % 7:
+            continue
+        try:
+            for kind, fresh in sharing_observed(serde, t):
+                seen_obs.setdefault((kind, fresh), origin)
+        except Exception:
+            continue
+    chk.cov["sharing_observed"] = sorted(f"{k}={v}" for k, v in seen_obs)
+    for (kind, fresh), origin in seen_obs.items():
+        if bool(pol.get(kind)) != fresh:
+            chk.correspondence_broken("container sharing of load/dump vs the extracted SharePolicy",
+                                      {"origin": origin, "field": kind, "source_says_fresh": pol.get(kind), "observed_fresh": fresh})
     got = chk.driver("C12", lines)
     bad = []
     seen = set()
@@ -895,7 +1006,7 @@ def correspond(chk: Check, trees: list) -> list:
 
 
 # ------------------------------------------------------------------------------------------ search (property oracle)
-SQL_DIALECTS = [None, "duckdb", "bigquery", "snowflake", "mysql", "postgres", "tsql", "spark", "oracle", "clickhouse"]
+SQL_DIALECTS = [None, "duckdb", "bigquery", "snowflake", "mysql", "postgres", "tsql", "spark", "oracle", "clickhouse", "singlestore"]
 
 
 def sql_all(t, dialects):
@@ -1081,6 +1192,10 @@ def oracle(t, dialects=SQL_DIALECTS, want=None, skip=(), sql_norm=False):
                 raise
             except Exception:
                 pass
+    if want is None or want.startswith("alias-"):
+        r = alias_checks(t, tj, serde, on)
+        if r:
+            return r
     # copy(): everything, including None-valued args and empty lists, is kept
     try:
         c = t.copy()
@@ -1111,6 +1226,91 @@ def oracle(t, dialects=SQL_DIALECTS, want=None, skip=(), sql_norm=False):
         for dname, x, y in zip(dialects, sqls, s2):
             if x != y and not x.startswith("raised "):
                 return ("copy-sql", f"copy(): .sql(dialect={dname}) differs: {x[:120]!r} vs {y[:120]!r}")
+    return None
+
+
+def _edit_decorations(root) -> int:
+    """what later passes do to a tree they were handed: append to existing comments, write into existing meta dicts
+    (annotate_types writes `nonnull` / `query_type`), in place"""
+    n_edit = 0
+    for n in root.walk():
+        if n.comments:
+            n.add_comments(["__verif__"])
+            n_edit += 1
+        if n._meta is not None:
+            n.meta["__verif__"] = True
+            n_edit += 1
+    return n_edit
+
+
+def _payload_diff_field(d, snap_list) -> str:
+    """the payload key whose value changed; nested dumps (TYPE lists, __expr__ meta entries) are searched inside"""
+    for p, q in zip(d, snap_list):
+        for k in sorted(set(p) | set(q)):
+            x, y = p.get(k), q.get(k)
+            if x == y:
+                continue
+            if k == "t" and isinstance(x, list) and isinstance(y, list) and len(x) == len(y):
+                return _payload_diff_field(x, y)
+            if k == "m" and isinstance(x, dict) and isinstance(y, dict) and set(x) == set(y):
+                for mk in x:
+                    if x[mk] != y[mk] and isinstance(x[mk], dict) and isinstance(y[mk], dict):
+                        inner = [v for v in x[mk].values() if isinstance(v, list)]
+                        inner_q = [v for v in y[mk].values() if isinstance(v, list)]
+                        if inner and inner_q and len(inner[0]) == len(inner_q[0]):
+                            return _payload_diff_field(inner[0], inner_q[0])
+            return k
+    return "?"
+
+
+def alias_checks(t, tj, serde, on):
+    """a kept dump is a value: editing the tree loaded from it (or the dumped tree) must not change it, nor what a
+    second load returns, nor the original tree"""
+    try:
+        d = serde.dump(t)
+        snap = json.dumps(d)
+    except Exception:
+        return None
+    try:
+        a = serde.load(d)
+        before = conv(serde.load(d), lenient=True)
+        if _edit_decorations(a):
+            if json.dumps(d) != snap:
+                name = "alias-load-" + _payload_diff_field(d, json.loads(snap))
+                if on(name):
+                    return (name, "editing the tree returned by load(d) (append a comment / set a meta key) changed the kept dump d "
+                                  f"(payload field {name.rsplit('-', 1)[1]!r} is shared with the loaded node)")
+            elif conv(serde.load(d), lenient=True) != before and on("alias-load-second"):
+                return ("alias-load-second", "editing the tree returned by load(d) changed what a second load(d) returns")
+            elif tj is not None and conv(t, lenient=True) != tj and on("alias-load-source"):
+                return ("alias-load-source", "editing load(dump(t)) changed t itself")
+    except RecursionError:
+        raise
+    except Unrep:
+        pass
+    finally:
+        # put the shared containers back (the trees of this run are reused by other checks)
+        try:
+            for p, q in zip(d, json.loads(snap)):
+                if "o" in p and p["o"] != q.get("o"):
+                    del p["o"][len(q["o"]):]
+                if "m" in p and isinstance(p["m"], dict):
+                    p["m"].pop("__verif__", None)
+        except Exception:
+            pass
+    try:
+        t2 = t.copy()
+        d2 = serde.dump(t2)
+        snap2 = json.dumps(d2)
+        if _edit_decorations(t2) and json.dumps(d2) != snap2:
+            name = "alias-dump-" + _payload_diff_field(d2, json.loads(snap2))
+            if on(name):
+                return (name, "editing a tree after dump() changed the dump already taken "
+                              f"(payload field {name.rsplit('-', 1)[1]!r} is the node's own object)")
+    except RecursionError:
+        raise
+    except Exception:
+        pass
     return None
 
 
@@ -1221,7 +1421,10 @@ def _fails(t, check, dialects, sql_norm=False):
 def consider(chk: Check, origin, t, dialects) -> bool:
     """run the oracle; every failing check of this tree is minimised, keyed and reported (a known finding on one
     check does not hide the others)"""
-    skip: list = []
+    # a check already matched to a known finding is not re-run on every further tree (its class is recorded once;
+    # other checks, and other fields of the same check family, stay armed)
+    known_checks = chk.cov.setdefault("checks_matched_known", [])
+    skip: list = list(known_checks)
     hit = False
     sql_norm = "constructed" in origin
     for _ in range(3):
@@ -1250,7 +1453,10 @@ def consider(chk: Check, origin, t, dialects) -> bool:
             else:
                 key = f"{check}:{type(t).__name__}"
                 replay = {"check": check, "origin": origin}
+        n_known = len(chk.known_hits)
         chk.report_violation(key, what, replay, {"check": check})
+        if len(chk.known_hits) > n_known and check not in known_checks:
+            known_checks.append(check)
         skip.append(check)
     return hit
 
